@@ -12,6 +12,6 @@ const (
 // New returns a map of the helpers within this package.
 func New() hctx.Map {
 	return hctx.Map{
-		LenKey: Len,
+		LenKey: LenE,
 	}
 }
